@@ -203,7 +203,25 @@ impl Hasher for TableHash {
         self.k = b;
     }
     fn finish(&self) -> u64 {
-        self.table[self.k as usize % MAX_KEYS]
+        hash_of_key(&self.table, self.k)
+    }
+}
+
+/// Hash of key `k`: the table entry for the first MAX_KEYS keys; beyond that (long
+/// scripted histories) a deterministic mix, unless the table is the all-equal one.
+pub fn hash_of_key(table: &[u64; MAX_KEYS], k: u8) -> u64 {
+    let base = table[k as usize % MAX_KEYS];
+    if (k as usize) < MAX_KEYS || table[0] == table[1] {
+        base
+    } else {
+        let x = base ^ (k as u64).wrapping_mul(0x9E37_79B9_7F4A_7C15);
+        x.wrapping_mul(0xD6E8_FEB8_6659_FD93) ^ (x >> 29)
+    }
+}
+
+impl TableHasher {
+    pub fn hash_of(&self, k: u8) -> u64 {
+        hash_of_key(&self.table, k)
     }
 }
 
